@@ -9,6 +9,6 @@ Extraction "qfmodel.ml"
   escape unescape crlf
   chars_required chars_required_len compose_ex apply_log compose_malloc dissect
   filename_to_uri_string uri_string_to_filename f2u_extent u2f_extent fn_absolute
-  query_legal dissect_spec roundtrip_expect sum_wraps total_size
+  query_legal dissect_spec roundtrip_expect total_size no_item_too_large
   uri_reference_shape unix_absolute win_drive_absolute win_unc win_relative win_absolute
   unix_uri_size win_uri_size filename_size uri_form.
